@@ -8,10 +8,11 @@
     [lookup] is [findNode] of tree.go: depth-first, static byte first, then the
     single wildcard, then the free wildcard, the flag of a failed node decides
     whether the search may go on.  The children of a tree node are the
-    derivatives of the pattern set.  [lookup true] is the code as it is
-    (finding C02-F1 / C03-F2: a free-wildcard node is tried with the parent
+    derivatives of the pattern set.  [lookup true] is the PINNED code
+    (findings C02-F1 / C03-F2: a free-wildcard node is tried with the parent
     node's key names, without its own capture, and its failure consults the
-    parent node's flag); [lookup false] is the repaired code (fixes/C02-F1.diff).
+    parent node's flag); [lookup false] is the code since the fix: commits
+    e897fef (C02-F1) and 88da16a (C03-F2), i.e. the code as it is now.
 
     [add] / [delete] are [Add] / [Delete] of tree.go seen at this level. *)
 From HV Require Import Base.Prelude Radix.Spec.
